@@ -383,6 +383,55 @@ fn scan_checks(h: &History, rep: &mut Report, rng: &mut Rng) {
                 }
             }
         }
+        // the same searches as filters over the data of the WHOLE store (several datasets: handles of keys and data repeat per set)
+        for k in set.keys.values().take(3) {
+            let Some(key) = ds.key(DataKeyHandle::new(k.handle)) else { continue };
+            for op in ops.iter().step_by(7) {
+                rep.eval();
+                let pair = |d: &ResultItem<AnnotationData>| (d.set().handle().as_usize(), d.handle().as_usize());
+                let scan: Result<Vec<(usize, usize)>, Panic> = guard(|| {
+                    let mut v: Vec<(usize, usize)> = store.data().filter(|d| d.set().handle() == ds.handle() && d.key().handle() == key.handle() && d.value().test(op)).map(|d| pair(&d)).collect();
+                    v.sort();
+                    v
+                });
+                let Ok(scan) = scan else { continue };
+                let routes: Vec<(&str, Result<Vec<(usize, usize)>, Panic>)> = vec![
+                    ("store.data().filter_key_handle_value", guard(|| store.data().filter_key_handle_value(ds.handle(), key.handle(), op.clone()).map(|d| pair(&d)).collect())),
+                    ("store.data().filter_key().filter_value", guard(|| store.data().filter_key(&key).filter_value(op.clone()).map(|d| pair(&d)).collect())),
+                    ("store.data().filter_set().filter_key_handle().filter_value", guard(|| store.data().filter_set(&ds).filter_key_handle(ds.handle(), key.handle()).filter_value(op.clone()).map(|d| pair(&d)).collect())),
+                ];
+                for (name, got) in routes {
+                    match got {
+                        Err(p) => rep.violation(format!("C10/{}/panic/{}", name, p.class()), json!({"operator": format!("{:?}", op), "panic": p.msg, "history": h.replay_json()})),
+                        Ok(mut g) => {
+                            g.sort();
+                            if g != scan {
+                                rep.violation(
+                                    format!("C10/{}/differs-from-scan/{}", name, diff_kind(&json!(scan), &json!(g))),
+                                    json!({"set": set.id, "key": k.id, "operator": format!("{:?}", op), "got_(set,data)": g, "scan_(set,data)": scan, "history": h.replay_json()}),
+                                );
+                            }
+                            if !scan.is_empty() {
+                                rep.distinct(&format!("scan/{}/{}", name, opname(op)));
+                            }
+                        }
+                    }
+                }
+                // and as a filter on annotations: those that carry a matching data item
+                let ascan: Result<Vec<usize>, Panic> = guard(|| store.annotations().filter(|a| a.data().any(|d| d.set().handle() == ds.handle() && d.key().handle() == key.handle() && d.value().test(op))).map(|a| a.handle().as_usize()).collect());
+                let agot: Result<Vec<usize>, Panic> = guard(|| store.annotations().filter_key_value(&key, op.clone()).map(|a| a.handle().as_usize()).collect());
+                if let (Ok(mut x), Ok(mut y)) = (ascan, agot) {
+                    x.sort();
+                    y.sort();
+                    if x != y {
+                        rep.violation(
+                            format!("C10/store.annotations().filter_key_value/differs-from-scan/{}", diff_kind(&json!(x), &json!(y))),
+                            json!({"set": set.id, "key": k.id, "operator": format!("{:?}", op), "got": y, "scan": x, "history": h.replay_json()}),
+                        );
+                    }
+                }
+            }
+        }
         // data_by_value finds an item with that key and value iff one exists
         for d in set.data.values().take(6) {
             rep.eval();
@@ -415,7 +464,7 @@ fn scan_checks(h: &History, rep: &mut Report, rng: &mut Rng) {
 }
 
 pub fn run(p: &Params, rep: &mut Report) {
-    rep.rule = "seeded histories of dataset creation, insert_data, annotate (data with and without ids, by id/handle, repeated (key,value) pairs), remove_data, remove_key; after every operation: returned data handles vs the model's exactly-once prediction, dedup invariants on the live sets, key.data()/find_data/test_data/data_by_value vs a scan of all data (4 any-combinations x ~15 operators); plus the full cross product of a 25-value pool x ~100 operators (every variant, Not, And/Or nested) against a reference written from the doc comments. distinct_nontrivial = distinct (value type, operator) cells where the reference says the test passes + distinct (route, key?, operator) searches with non-empty result".into();
+    rep.rule = "seeded histories of dataset creation, insert_data, annotate (data with and without ids, by id/handle, repeated (key,value) pairs), remove_data, remove_key; after every operation: returned data handles vs the model's exactly-once prediction, dedup invariants on the live sets, key.data()/find_data/test_data/data_by_value vs a scan of all data (4 any-combinations x ~15 operators), and the filter adaptors over the data and the annotations of the whole store (filter_key_handle_value, filter_key+filter_value, filter_set+..., annotations().filter_key_value) vs a scan; plus the full cross product of a 25-value pool x ~100 operators (every variant, Not, And/Or nested) against a reference written from the doc comments. distinct_nontrivial = distinct (value type, operator) cells where the reference says the test passes + distinct (route, key?, operator) searches with non-empty result".into();
     rep.assumptions = vec![
         "NaN is excluded (IEEE inequality makes 'same value' undefined)".into(),
         "Bool vs Equals(string), Int vs EqualsFloat and Float vs EqualsInt are not documented and not judged".into(),
